@@ -106,9 +106,9 @@ func init() {
 				r := e.sol.check(c.st.pc, e.tb.Not(cond), kf)
 				if r == "sat" {
 					ob := Oblig{Label: label, Kind: "assert", Result: "known", Where: where, Harness: e.harness, Known: name, Model: e.modelOf(c.st)}
-					e.obligs = append(e.obligs, ob)
+					e.addOblig(ob)
 				} else if r != "unsat" {
-					e.obligs = append(e.obligs, Oblig{Label: label, Kind: "assert", Result: "unknown", Where: where, Harness: e.harness, Known: name})
+					e.addOblig(Oblig{Label: label, Kind: "assert", Result: "unknown", Where: where, Harness: e.harness, Known: name})
 				}
 			}
 			return true
@@ -117,30 +117,42 @@ func init() {
 			label := c.args[0].(StrV).lit
 			r := e.sol.check(c.st.pc)
 			if r == "sat" {
+				e.mu.Lock()
 				e.reached[label]++
-				if e.witness[label] == nil {
-					e.witness[label] = e.modelOf(c.st)
+				need := e.witness[label] == nil
+				e.mu.Unlock()
+				if need {
+					m := e.modelOf(c.st)
+					e.mu.Lock()
+					e.witness[label] = m
+					e.mu.Unlock()
 				}
 			}
 			return true
 		},
 		"vCover": func(e *Engine, c *callCtx) bool {
 			label := c.args[1].(StrV).lit
-			if e.covers[label] {
-				return true
-			}
+			e.mu.Lock()
+			done := e.covers[label]
 			if _, ok := e.covers[label]; !ok {
 				e.covers[label] = false
+			}
+			e.mu.Unlock()
+			if done {
+				return true
 			}
 			t := c.args[0].(BoolV).t
 			if t.isFalse() {
 				return true
 			}
 			if e.sol.check(c.st.pc, t) == "sat" {
+				m := e.modelOf(c.st)
+				e.mu.Lock()
 				e.covers[label] = true
 				if e.witness["cover:"+label] == nil {
-					e.witness["cover:"+label] = e.modelOf(c.st)
+					e.witness["cover:"+label] = m
 				}
+				e.mu.Unlock()
 			}
 			return true
 		},
@@ -184,11 +196,11 @@ func init() {
 			return true
 		},
 		"vUnwind": func(e *Engine, c *callCtx) bool {
-			e.unwind = e.mustConst(c.args[0].(IntV).t, "vUnwind")
+			c.st.unwind = e.mustConst(c.args[0].(IntV).t, "vUnwind")
 			return true
 		},
 		"vPanics": func(e *Engine, c *callCtx) bool {
-			e.panicsOn = c.args[0].(BoolV).t.isTrue()
+			c.st.panicsOn = c.args[0].(BoolV).t.isTrue()
 			return true
 		},
 		"vClock": func(e *Engine, c *callCtx) bool {
